@@ -235,7 +235,7 @@ func fromOf(c *cval) string {
 var c15 = &h.Campaign[UpdaterCase]{
 	Prop: "C15", Sub: "updater",
 	Rule: "rapid: sequences (1-40) over one watched secret: install a new version (service change + Refresh; the builder may be told to reject that version), Get / Err on any updater, create another updater mid-history, a poll that installs nothing, a poll that updates an unrelated secret; values implement io.Closer with a close counter; model per updater = pending-install flag + current value; non-trivial = >= 2 installs between two Gets of an updater, or a failed build followed by a successful one; distinct by sequence",
-	Quick: 6000, Thorough: 300000,
+	Quick: 6000, Thorough: 2000000,
 	Gen: func(rt *rapid.T) UpdaterCase {
 		return UpdaterCase{Ops: rapid.SliceOfN(rapid.Custom(func(rt *rapid.T) UOp {
 			o := UOp{Kind: rapid.SampledFrom([]string{"install", "install", "install", "get", "get", "get", "new", "new-during-install", "pollnop", "other", "err"}).Draw(rt, "kind"), U: rapid.IntRange(0, 3).Draw(rt, "u")}
@@ -364,7 +364,7 @@ func runC15Conc(t *testing.T, c ConcUpdaterCase) (*h.Violation, h.Info) {
 var c15conc = &h.Campaign[ConcUpdaterCase]{
 	Prop: "C15", Sub: "concurrent",
 	Rule: "rapid: 2-6 goroutines spinning on Get of 1-3 updaters while 3-40 installs happen, under the race detector; per reader the versions seen never go backwards, the final Get of every updater is built from the last install, every replaced value closed exactly once, no current value closed; non-trivial = rebuilds happened while readers ran; distinct by (getters, installs, updaters) - schedules are sampled",
-	Quick: 400, Thorough: 20000,
+	Quick: 400, Thorough: 60000,
 	Gen: func(rt *rapid.T) ConcUpdaterCase {
 		return ConcUpdaterCase{Getters: rapid.IntRange(2, 6).Draw(rt, "getters"), Installs: rapid.IntRange(3, 40).Draw(rt, "installs"), Updaters: rapid.IntRange(1, 3).Draw(rt, "updaters")}
 	},
